@@ -170,7 +170,12 @@ def gradient(expr: Expression, wrt: Variable) -> Expression:
     if depth >= _RECURSION_THRESHOLD:
         return _gradient_iterative(expr, wrt)
 
-    return _gradient_cached(expr, wrt)
+    try:
+        return _gradient_cached(expr, wrt)
+    except RecursionError:
+        # The left-spine estimate misses depth that hangs off a right operand
+        # (e.g. ``K - acc`` for a long accumulation ``acc``)
+        return _gradient_iterative(expr, wrt)
 
 
 def _estimate_tree_depth(
